@@ -648,6 +648,21 @@ def _serial(sym, env):
                 break
         cf.deliver(pk)
 
+    if sym.B.get('fast'):
+        # the device answers so fast that the receiver thread dispatches the reply while the updater is still inside the
+        # driver's (blocking) send_packet: a legal interleaving of the two threads
+        link = cf.link
+        plain_send = link.send_packet
+
+        def send_and_answer(pk):
+            plain_send(pk)
+            on_wire()
+            if inflight:
+                j, raw, val = inflight.pop(0)
+                deliver(j, raw, val)
+                copies.append((j, raw, val))
+                sym.goal('answered-during-send')
+        link.send_packet = send_and_answer
     for t in range(4 * N + dups + notify + 2):
         on_wire()
         ev = []
@@ -679,7 +694,10 @@ def _serial(sym, env):
         elif e == 'updater':
             n = len(w.sent)
             assert env.step(up) == 'yield'
-            assert len(w.sent) == n + 1, 'updater did not send exactly one request'
+            if sym.B.get('fast'):
+                assert len(w.sent) >= n + 1, 'updater did not send a request'       # answered in-send: it goes straight on to the next
+            else:
+                assert len(w.sent) == n + 1, 'updater did not send exactly one request'
         elif e == 'reply':
             j, pk, val = inflight.pop(0)
             deliver(j, pk, val)
@@ -732,6 +750,8 @@ HARNESSES += [
             goals=('done', 'duplicate', 'copy-with-the-id-of-the-open-request-on-another-channel'))
     for k0 in REQ_KINDS
 ] + [
+    Harness('serial[fast answers]', h_serial, quick=dict(requests=3, fast=True), thorough=dict(requests=4, fast=True), timeout=(600, 1800),
+            goals=('answered-during-send',), note='every reply is dispatched while the sender is still inside the driver\'s send_packet'),
     Harness('serial[notify]', h_serial, quick=dict(requests=2, notify=1), thorough=dict(requests=3, notify=1, issue_first=True),
             timeout=(600, 3000), goals=('done', 'notified')),
 ]
